@@ -137,3 +137,9 @@ more("C18", "(eighth round) isStd answers true only from the located package's G
 more("C15", "(eighth round) $ifaceKeyFor rejects unhashable dynamic types with a run-time error before calling keyFor.")
 more("C17", "(eighth round) a session prepares and compiles each program from the dependency closure of its root, without archives of earlier builds.")
 more("C06", "(eighth round) 64-bit integers convert to float32 through a sticky-bit helper (one rounding).")
+more("C06", "(eighth round) integer constants reach %f operands with all their digits.")
+more("C07", "(eighth round) value-receiver methods clone a struct/array receiver on entry when a may-modify analysis of the body holds; individually passed variadic arguments are cloned; the clone of a pointer-called value method is decided by the method's receiver type.")
+more("C03", "(eighth round) a goroutine taken off the run queue is run before the scheduling loop can be left.")
+more("C05", "(eighth round) object-naming helpers run only inside the CollectDCEDeps callback.")
+more("C16", "(eighth round) every statement template ends explicitly.")
+more("C09", "(eighth round) receiver copies (C07.receiver-copy, C09.receiver-clone).")
